@@ -496,12 +496,14 @@ func famEval() {
 	}
 	seen := map[string]bool{}
 	id := *fIDBase - 1
-	for _, t := range trees {
+	for ti, t := range trees {
 		src := t.Src()
 		if seen[src] {
 			continue
 		}
 		seen[src] = true
+		curK = []int64{3, 3, 3, 7}[ti%4]
+		setK(t, curK)
 		id++
 		rec := M{"fam": "eval", "for": prop, "id": id, "src": src, "tree": t, "illtyped": illTyped[t], "foreign": strings.Contains(src, "KI")}
 		// bindings
